@@ -54,6 +54,9 @@ CLAIMED = {
  "C10": dict(cat="model_checking", tech=MC + "; the message is in the menu of every state of a process that links the application like the node binary does", ref="DESIGN.md §5 C10",
    text="MsgAddAllowedBidder signed by each bidder and an outsider is delivered through the application's message router in every explored state of the fixed / batch / multi-auction lifecycle scenarios and must be rejected with the allow-list byte-identical; no other message changes the allow-list; every accepted bid's signer is listed in the pre-state and every stored bid's bidder is listed in every state",
    note=TRUST + "; configuration covered: the import graph of cmd/fundraisingd (app + cmd packages, nothing from testutil/simulation imported by the harness itself); the -X link flag documented for testing builds is by definition out of scope"),
+ "C17": dict(cat="fault_enumeration", tech="exhaustive enumeration of (operation, pre-state) x listeners x failing position x failing hook x registration path on the real keeper with recording / vetoing listeners", ref="DESIGN.md §5 C17",
+   text="all 426 cases of the product are executed on a second real keeper over the application's own store: exact call sequence, arguments vs message / committed record / real transfers, announced record not yet visible to the listener, veto => wrapped error and nothing committed at the transaction boundary, settlement veto reported by the block hook",
+   note=TRUST + "; depinject wiring inside app.New is not exercised (no provider can be added from outside); at most 3 listeners; interpretation I4"),
  "C07": dict(cat="model_checking", tech=MC + " + exhaustive single-fault enumeration over the bank calls of every distinct effective block",
    ref="DESIGN.md §5 C07",
    text="(a) every explored state of the lifecycle and multi-auction scenarios x every later block instant: the module's registered block hook returns nil and does not panic; (b) for every distinct (state, block time) whose block calls the bank, each call index in turn returns an injected error and the hook must return an error wrapping it",
